@@ -199,6 +199,11 @@ m("c20-lock-order", "C20", "two mutex-guarded counters taken in opposite order b
   ("scan.go", "\t\"strconv\"\n)", "\t\"strconv\"\n\t\"sync\"\n)"),
   ("format.go", "func (d Decimal) String() string {\n\tvar buf []byte", "func (d Decimal) String() string {\n\tstatFormatMu.Lock()\n\tstatFormat++\n\tstatParseMu.Lock()\n\tstatTotal = statParse + statFormat\n\tstatParseMu.Unlock()\n\tstatFormatMu.Unlock()\n\n\tvar buf []byte"))
 
+m("c20-benign-lazy-once", None, "benign: the (pinned) digitPairs table is cleared at init and filled on first use under sync.Once (a properly synchronised lazy initialisation of one of the library's own tables)",
+  ("format.go", "func (d Decimal) digits(digs *digits) {\n\t*digs = digits{}", "func (d Decimal) digits(digs *digits) {\n\tdigitPairsOnce.Do(func() {\n\t\tfor i := range digitPairs {\n\t\t\tdigitPairs[i] = [2]byte{'0' + byte(i/10), '0' + byte(i%10)}\n\t\t}\n\t})\n\n\t*digs = digits{}"),
+  ("format.go", "type digits struct {", "var digitPairsOnce sync.Once\n\nfunc init() {\n\tfor i := range digitPairs {\n\t\tdigitPairs[i] = [2]byte{}\n\t}\n}\n\ntype digits struct {"),
+  ("format.go", "import (\n\t\"fmt\"\n", "import (\n\t\"fmt\"\n\t\"sync\"\n"))
+
 def main():
     os.makedirs(OUT, exist_ok=True)
     for f in os.listdir(OUT):
